@@ -204,14 +204,16 @@ inductive Build where
   | panic
   deriving DecidableEq, Repr
 
-/-- the `for i, arg := range args` loop: `params` = the parameter types from position `i` on -/
-def buildArgs (oob : IntKind → Num → Int) : List Ty → List Val → Build
+/-- the `for i, arg := range args` loop: `params` = the parameter types from position `i` on.
+    `checked` = the source has the explicit arity check (`Shape.arityChecked`); without it
+    `funcType.In(i)` panics for `i = NumIn`. -/
+def buildArgs (checked : Bool) (oob : IntKind → Num → Int) : List Ty → List Val → Build
   | _, [] => .ok []
-  | [], _ :: _ => .error .tooMany            -- i == funcType.NumIn()
+  | [], _ :: _ => if checked then .error .tooMany else .panic     -- i == funcType.NumIn()
   | p :: ps, a :: as =>
     match checkArg oob p a with
     | .accept v =>
-      match buildArgs oob ps as with
+      match buildArgs checked oob ps as with
       | .ok vs => .ok (v :: vs)
       | r => r
     | .error => .error .wrongType
@@ -299,10 +301,10 @@ inductive Raw where
   | panic
   deriving Repr
 
-def runRaw (oob : IntKind → Num → Int) : Target → List Val → Raw
+def runRaw (checked : Bool) (oob : IntKind → Num → Int) : Target → List Val → Raw
   | .notFunc, _ => .panic          -- funcval.Type() / NumIn() / Call of a non-function: reflect panics
   | .fn sig body, args =>
-    match buildArgs oob sig.params args with
+    match buildArgs checked oob sig.params args with
     | .error e => .ret (.one .nil) (some (.bridge e))
     | .panic => .panic
     | .ok fargs =>
@@ -320,6 +322,7 @@ structure Shape where
   firstStmtIsDefer : Bool      -- the first statement of the body is `defer func() {…}()`
   closureCallsRecover : Bool   -- that closure evaluates `recover()` directly (not in a nested function)
   closureAssignsErr : Bool     -- … and assigns `err` under `r != nil`
+  arityChecked : Bool          -- surplus arguments are rejected by an explicit `return nil, <error>`
   deriving DecidableEq, Repr
 
 def Shape.recovers (s : Shape) : Bool :=
@@ -331,7 +334,7 @@ inductive Outcome where
   deriving DecidableEq, Repr
 
 def run (shape : Shape) (oob : IntKind → Num → Int) (t : Target) (args : List Val) : Outcome :=
-  match runRaw oob t args with
+  match runRaw shape.arityChecked oob t args with
   | .ret r e => .done r e
   | .panic => if shape.recovers then .done (.one .nil) (some .recovered) else .escaped
 
@@ -353,7 +356,7 @@ end Ecal.Bridge
 namespace Ecal.Bridge
 /-- do the arguments get as far as the wrapped function, and as which Go values? -/
 def reaches (oob : IntKind → Num → Int) (sig : Sig) (args : List Val) : Option (List Val) :=
-  match buildArgs oob sig.params args with
+  match buildArgs true oob sig.params args with
   | .ok f => if callCheck sig f then some f else none
   | _ => none
 
